@@ -3,6 +3,7 @@
 -/
 import DDV.Gen.Passes
 import DDV.Gen.Lemmas.Refs
+import DDV.Gen.Lemmas.LowerRefs
 
 namespace DDV.Props.C18
 open DDV.Gen
@@ -155,5 +156,28 @@ theorem command_ref_cfg (n : Names) (cfg : GlobalConfig) (all : List Object) (rf
     ∃ m, getMethod n cfg all "new" (fuel + 2) (.ref rf) = .ok (m, []) ∧ m.cfg = rf.cfg := by
   obtain ⟨m, h, _, _, h3, _⟩ := command_ref_method n cfg all rf ov c t fuel hov ht hc
   exact ⟨m, h, h3⟩
+
+/-- **Every accessor carries exactly its object's own cfg** — for every object at every depth and
+    for refs of all three kinds (block refs included): whatever the lowering emits for an object
+    (`lowering_structure_refs`) is gated by that object's cfg after `propagate_cfg`, i.e. own ∧
+    enclosing blocks; for a ref that is the *ref's* cfg, and nothing of its target's or of the blocks
+    around its target. -/
+theorem accessor_cfg_is_the_objects_own (n : Names) (cfg : GlobalConfig) (all : List Object) (rfn : String)
+    (fuel : Nat) (o : Object) (m : Method) (bs : List LBlock)
+    (h : getMethod n cfg all rfn fuel o = .ok (m, bs)) : m.cfg = o.cfg := by
+  obtain ⟨e, _, _⟩ := (lowering_structure_refs n cfg all fuel).1 rfn o m bs h
+  rw [e]
+  cases o with
+  | block hd os => rfl
+  | register r => rfl
+  | command c => rfl
+  | buffer b => rfl
+  | ref rf =>
+    simp only [methodOfR, resolveWith]
+    cases hs : searchObject rf.override.name all with
+    | none => rfl
+    | some t =>
+      simp only
+      cases hov : rf.override <;> cases t <;> simp [substRef, hov, methodOfWith, methodOf, Object.cfg]
 
 end DDV.Props.C18
